@@ -368,15 +368,26 @@ Section Tree.
   (* ---------------------------------------------------------------- one object *)
   (* b: the serializer marks the element xsi:nil="true" (nillable field or class); the instance then has
      content and the writer drops the mark *)
+  Definition nil_case (b : bool) (o : value) : Prop :=
+    b = false \/ has_content u o = true \/ (has_content u o = false /\ strict_empty u o = true).
+  Lemma nil_case_item var y cl' n : fits n cl' y = true -> (v_nillable var = true -> has_content u y = true \/ cnil u y = true) ->
+    nil_case (v_nillable var || cnil u y) y.
+  Proof.
+    intros Hr Hcy. unfold nil_case.
+    destruct (cnil u y) eqn:Ec.
+    - rewrite orb_true_r. right. destruct (fits_content c u ok pyspace _ _ _ Hr Ec) as [H|[H1 [H2 _]]]; [left; exact H|right; split; assumption].
+    - rewrite orb_false_r. destruct (v_nillable var); [|left; reflexivity]. right. left.
+      destruct (Hcy eq_refl) as [H|H]; [exact H|discriminate H].
+  Qed.
   Lemma den_obj : forall n cl o qn xsi b,
-    wfr cl -> fits n cl o = true -> (b = false \/ has_content u o = true) ->
-    den (add_nil_g b (add_xsi_g xsi (gobj n qn o))) = [add_xsi_e xsi (eobj n qn o)]
+    wfr cl -> fits n cl o = true -> nil_case b o ->
+    den (add_nil_g b (add_xsi_g xsi (gobj n qn o))) = [add_nil_e (nil_kept u b o) (add_xsi_e xsi (eobj n qn o))]
     /\ attrs_present (item_of c (add_nil_g b (add_xsi_g xsi (gobj n qn o)))) = true.
   Proof.
     induction n as [|n IH]; intros cl o qn xsi b Hwf Hfit Hb; [discriminate|].
     destruct (fits_inv c u ok pyspace n cl o Hfit) as [fs [m [-> [Hm [Hnames [Hfa [Hfe Hft]]]]]]].
     destruct (wfr_inv u cl Hwf) as [m' [Hm' [Hmc [Hwc Hnest]]]]. rewrite Hm in Hm'. inversion Hm'; subst m'. clear Hm'.
-    cbn [RoundtripGen.gobj RoundtripGen.eobj]. rewrite Hm. cbn [add_xsi_g add_xsi_e add_nil_g].
+    cbn [RoundtripGen.gobj RoundtripGen.eobj]. rewrite Hm. cbn [add_xsi_g add_xsi_e add_nil_g add_nil_e].
     set (q := match qn with Some ((_ :: _) as q) => q | _ => m_qname m end).
     set (gats0 := flat_map (fun var => g_attr c u ign var (field_of fs var)) (get_attribute_vars m)).
     set (gats := gats0 ++ xsi_attr_g xsi).
@@ -542,15 +553,11 @@ Section Tree.
               pose proof (fits_item_content c u ok _ var k y Htys Hfy) as Hcy.
               destruct (fits_item_class c u ok _ var k y Htys Hfy) as [cl' [fs' [-> [[-> Hr]|[Hdok Hr]]]]].
               - cbn [g_item e_item].
-                assert (Hby : (v_nillable var || cnil u (VObj k fs')) = false \/ has_content u (VObj k fs') = true).
-                { destruct (v_nillable var); [right; apply Hcy; reflexivity|].
-                  destruct (cnil u (VObj k fs')) eqn:Ec; [right; apply (fits_content c u ok _ _ _ _ Hr Ec)|left; reflexivity]. }
+                pose proof (nil_case_item var (VObj k fs') k n Hr Hcy) as Hby.
                 apply (IH k); [|exact Hr|exact Hby].
                 apply (Hnest _ var k Hine (or_introl eq_refl) Hcl).
               - cbn [g_item e_item].
-                assert (Hby : (v_nillable var || cnil u (VObj cl' fs')) = false \/ has_content u (VObj cl' fs') = true).
-                { destruct (v_nillable var); [right; apply Hcy; reflexivity|].
-                  destruct (cnil u (VObj cl' fs')) eqn:Ec; [right; apply (fits_content c u ok _ _ _ _ Hr Ec)|left; reflexivity]. }
+                pose proof (nil_case_item var (VObj cl' fs') cl' n Hr Hcy) as Hby.
                 apply (IH cl'); [|exact Hr|exact Hby].
                 destruct (derived_ok_inv c u ok var k cl' Hdok) as [Hne [Hsub [mk [mkd [t [Hmk _]]]]]].
                 apply (wfr_sub u cl m _ var k cl' Hwf Hm Hine (or_introl eq_refl) Hcl); [congruence|exact Hne|exact Hsub]. }
@@ -664,8 +671,26 @@ Section Tree.
       rewrite map_app. apply NoDup_app_intro'; [exact Hnd|constructor; [intros []|constructor]|].
       intros x Hx [<-|[]]. apply in_map_iff in Hx as [a [Ea Ha]]. exact (Hnonil a Ha Ea). }
     (* content: the instance has content when the element is marked *)
-    assert (Hcont : b = true -> existsb kid_content (map (item_of c) gks) = true).
-    { intros ->. destruct Hb as [Hb|Hb]; [discriminate Hb|].
+    assert (Hnocont : strict_empty u (VObj cl fs) = true -> existsb kid_content (map (item_of c) gks) = false).
+    { intros Hse. cbn [strict_empty] in Hse. rewrite Hm in Hse. rewrite forallb_forall in Hse.
+      destruct (existsb kid_content (map (item_of c) gks)) eqn:Eex; [|reflexivity]. exfalso.
+      apply existsb_exists in Eex as [k [Hk Hkc]]. revert Hkc. enough (Hkf : kid_content k = false) by (rewrite Hkf; discriminate).
+      apply in_map_iff in Hk as [k0 [<- Hk0]].
+      unfold gks in Hk0. apply in_flat_map in Hk0 as [[var x] [Hin Hk0]]. cbn [fst snd] in Hk0.
+      destruct (ps_src _ _ _ _ Hps _ Hin) as [Hvar [Hok Hsrc]]. cbn [fst snd] in Hvar, Hsrc. unfold okval in Hok. cbn [fst snd] in Hok.
+      pose proof (Hse var Hvar) as Hv.
+      destruct Hsrc as [Hw|[f0 [t0 [l0 [_ [_ [_ [El Hil]]]]]]]]; cbn [fst snd] in *.
+      2:{ exfalso. rewrite El in Hv. destruct l0; [destruct Hil|discriminate Hv]. }
+      unfold pair_whole in Hw. cbn [fst snd] in Hw. rewrite <- Hw in Hv.
+      destruct x as [| |tt l| | | |]; try discriminate Hv.
+      - exfalso. apply negb_true_iff in Hv. destruct Hok as [H|H]; congruence.
+      - destruct l; [|discriminate Hv]. destruct (v_wrapper_qname var) eqn:Ew; [discriminate Hv|].
+        unfold g_field, g_wrap in Hk0. rewrite Ew in Hk0. unfold g_items in Hk0.
+        destruct (v_is KText var).
+        + destruct Hk0 as [<-|[]]. reflexivity.
+        + destruct (v_tokens_factory var); destruct Hk0. }
+    assert (Hcont : b = true -> has_content u (VObj cl fs) = true -> existsb kid_content (map (item_of c) gks) = true).
+    { clear Hb. intros -> Hb.
       cbn [has_content] in Hb. rewrite Hm in Hb. apply existsb_exists in Hb as [var [Hvar Hem]].
       assert (Hocc : occ var (field_of fs var) <> []).
       { unfold emits in Hem. unfold occ. destruct (field_of fs var) as [| |tt l| | | |]; try (destruct (v_tokens_factory var); discriminate).
@@ -732,10 +757,16 @@ Section Tree.
     - unfold den. cbn [item_of denote].
       fold gnil. fold gats.
       rewrite (spec_attrs_rel _ _ [] Hrel2 Hnd2). cbn [app].
-      assert (Ef : nil_filter (existsb kid_content (map (item_of c) gks)) (eats ++ nil_attr_b b) = eats).
-      { destruct b.
-        - rewrite (Hcont eq_refl). apply filter_nil_last. exact Hnonil.
-        - unfold nil_attr_b. rewrite app_nil_r. apply (nil_filter_none _ _ Hnonil). }
+      assert (Ef : nil_filter (existsb kid_content (map (item_of c) gks)) (eats ++ nil_attr_b b)
+                   = eats ++ nil_attr_k (nil_kept u b (VObj cl fs))).
+      { unfold nil_kept. destruct Hb as [->|[Hc|[Hc Hse]]].
+        - cbn [andb nil_attr_k]. unfold nil_attr_b. rewrite !app_nil_r. apply (nil_filter_none _ _ Hnonil).
+        - rewrite Hc. cbn [negb]. rewrite andb_false_r. cbn [nil_attr_k]. rewrite app_nil_r.
+          destruct b.
+          + rewrite (Hcont eq_refl Hc). apply filter_nil_last. exact Hnonil.
+          + unfold nil_attr_b. rewrite app_nil_r. apply (nil_filter_none _ _ Hnonil).
+        - rewrite Hc, (Hnocont Hse). cbn [negb]. rewrite andb_true_r. unfold nil_filter.
+          destruct b; cbn [nil_attr_b nil_attr_k]; [rewrite split_xsi_nil|]; reflexivity. }
       rewrite Ef. f_equal. f_equal.
       rewrite flat_map_map. exact Hk1.
     - unfold attrs_present, t_attrs_present. cbn [item_of all_nodes].
@@ -754,13 +785,16 @@ Section Tree.
     cbn [denote] in Hd. rewrite He in Hd. inversion Hd. reflexivity.
   Qed.
 
+  (* the element of an empty instance of a nillable class keeps xsi:nil="true" *)
+  Definition etop (n : nat) (o : value) : XmlNs.enode := add_nil_e (nil_kept u (cnil u o) o) (eobj n None o).
   Theorem events_mean : forall n cl o,
     wfr cl -> fits n cl o = true ->
-    itree_of_events (map (of_wevent c) (bflat (add_nil_g (cnil u o) (gobj n None o)))) = Some (eobj n None o).
+    itree_of_events (map (of_wevent c) (bflat (add_nil_g (cnil u o) (gobj n None o)))) = Some (etop n o).
   Proof.
-    intros n cl o Hwf Hfit.
-    assert (Hb : cnil u o = false \/ has_content u o = true).
-    { destruct (cnil u o) eqn:Ec; [right; apply (fits_content c u ok pyspace _ _ _ Hfit Ec)|left; reflexivity]. }
+    intros n cl o Hwf Hfit. unfold etop.
+    assert (Hb : nil_case (cnil u o) o).
+    { unfold nil_case. destruct (cnil u o) eqn:Ec; [right|left; reflexivity].
+      destruct (fits_content c u ok pyspace _ _ _ Hfit Ec) as [H|[H1 [H2 _]]]; [left; exact H|right; split; assumption]. }
     destruct (den_obj n cl o None None (cnil u o) Hwf Hfit Hb) as [Hd Hp].
     rewrite add_xsi_g_none, add_xsi_e_none in Hd. rewrite add_xsi_g_none in Hp.
     rewrite flatten_item_of. apply itree_of_denote; [|exact Hp|exact Hd].
